@@ -9,7 +9,7 @@
 //!   when ok: "signed_len" (chars), "signed_sym": lexing of the signed file into
 //!            {"k":"c"|"G"|"T"|"S","at":char offset,"len":chars[,"h":hex]}  (fixed literals, no judgement),
 //!            "signed_after","valid_after",
-//!            "edits_tried": number of single-character substitutions tried (every position x 4 other chars),
+//!            "edits_tried": number of single-character substitutions tried (every position x 4 other chars + its line-ending/blank/case sibling),
 //!            "still_valid": [{"pos":char offset,"cp":replacement}] = every substitution after which
 //!                           is_valid_signature still returned true (wherever it is; TLA+ decides if that is allowed)
 use std::io::{BufRead, Write};
@@ -101,11 +101,27 @@ fn main() {
                 for p in 0..chars.len() {
                     // replacements of several kinds (blank, line break, punctuation, letter, digit), so that an
                     // implementation that normalises white space / case before hashing is noticed
-                    let cands: Vec<char> = [' ', '\n', '#', 'a', '0', 'Z']
+                    let mut cands: Vec<char> = [' ', '\n', '#', 'a', '0', 'Z']
                         .into_iter()
                         .filter(|c| *c != chars[p])
                         .take(4)
                         .collect();
+                    // plus the sibling an implementation might identify the character with
+                    // (line-ending, blank or case normalisation before hashing)
+                    let sibling = match chars[p] {
+                        '\n' => Some('\r'),
+                        '\r' => Some('\n'),
+                        ' ' => Some('\t'),
+                        '\t' => Some(' '),
+                        c if c.is_ascii_lowercase() => Some(c.to_ascii_uppercase()),
+                        c if c.is_ascii_uppercase() => Some(c.to_ascii_lowercase()),
+                        _ => None,
+                    };
+                    if let Some(sb) = sibling {
+                        if !cands.contains(&sb) {
+                            cands.push(sb);
+                        }
+                    }
                     for c in cands {
                         let mut e = chars.clone();
                         e[p] = c;
